@@ -58,4 +58,30 @@ theorem C14_message_of_state {α} [DecidableEq α] (K : Kern) (P : PPrms α) (c 
   | ok s' => simp only [hm] at h ⊢; cases h; simp
   | error e => simp only [hm] at h; cases e <;> simp [outOfErr] at h
 
+/-- Queries are queries: reading a message never changes the chunk (ids, tables, flag, parameters), whether the call
+returns a message or is refused - in every state, reachable or not.  (The run-time counterpart is the purity clause of
+the end-to-end scenes: after every message was read, every table, the flag and the parameters are what they were.) -/
+theorem C14_queries_pure {α} [DecidableEq α] (K : Kern) (P : PPrms α) (c : Chunk α) (w : Which) :
+    (step K P c (.metarMsg w)).1 = c := by
+  show (match metarMsgOp P c w with | .ok s => (c, Out.msg s) | .error e => (c, outOfErr e)).1 = c
+  cases metarMsgOp P c w <;> rfl
+
+/-- ... hence any number of message reads, in any order, interleaved anywhere in a history, leave its final state
+unchanged: reads can be erased from a history without affecting the state it ends in. -/
+theorem C14_reads_erasable {α} [DecidableEq α] (K : Kern) (P : PPrms α) (c : Chunk α) (ops : List Op) :
+    (runOps K P c ops).1 = (runOps K P c (ops.filter fun o => match o with | .metarMsg _ => false | _ => true)).1 := by
+  induction ops generalizing c with
+  | nil => rfl
+  | cons op rest ih =>
+    cases op with
+    | metarMsg w =>
+      have hq := C14_queries_pure K P c w
+      simp only [runOps, List.filter_cons]
+      rw [show (step K P c (Op.metarMsg w)) = ((step K P c (Op.metarMsg w)).1, (step K P c (Op.metarMsg w)).2) from rfl, hq]
+      exact ih c
+    | findSlices => simp only [runOps, List.filter_cons]; exact ih _
+    | findGroups => simp only [runOps, List.filter_cons]; exact ih _
+    | findLayers => simp only [runOps, List.filter_cons]; exact ih _
+    | metarize w => simp only [runOps, List.filter_cons]; exact ih _
+
 end Ampy
